@@ -47,7 +47,7 @@ ASSUMPTIONS = [
     "fixed-window alignment is to multiples of the window from the epoch; boundary nanoseconds (k*W +- 1 ns) are excluded "
     "from the per-aligned-window count (they are covered by the 2N-in-any-window-length clause)",
     "tolerances: token/adaptive bound + 1e-6 token; leaky spacing and sliding window - 1 ns",
-    "adaptive bound is the lenient reading: count(i..j) <= Rmax*window + Rmax*(t_j - t_i) with Rmax the largest rate in "
+    "adaptive bound is the lenient reading: count(i..j) <= max(1, Rmax*window) + Rmax*(t_j - t_i) with Rmax the largest rate in "
     "effect between the first policy query at instant t_i and admission j (tokens are only clamped at a refill)",
     f"'within a few steps' = at most {MAX_WAITS} waits of the returned duration",
     "drain horizon in simulations = last arrival + (queue_capacity + 3) * slowest admission period + 1 s",
@@ -124,7 +124,7 @@ def slowest_admission_ns(spec: dict) -> int:
 # generators
 
 
-WINDOWS = [0.1, 0.2, 0.3, 0.7, 0.05, 0.25, 1.0, 0.29, 0.001, 0.6, 1.1]
+WINDOWS = [0.1, 0.2, 0.3, 0.7, 0.05, 0.25, 1.0, 0.29, 0.001, 0.6, 1.1, 1.001, 1.003]  # 1.001, 1.003: int(w*1e9) is 1 ns short
 RATES = [0.5, 1.0, 2.0, 3.0, 7.0, 10.0, 100.0, 1000.0, 10000.0, 0.3, 3.3]
 
 
@@ -134,7 +134,7 @@ def gen_times(rng: random.Random, P: int, wf: float | None, n: int, anchor: int 
     out: list[int] = []
     segs = ["boundary", "boundary", "near", "dense", "burst", "sparse", "sub"]
     if wf is not None:
-        segs.append("floatmult")
+        segs += ["floatmult", "truncmult"]
     while len(out) < n:
         seg = rng.choice(segs)
         m = rng.randrange(1, 10)
@@ -149,6 +149,11 @@ def gen_times(rng: random.Random, P: int, wf: float | None, n: int, anchor: int 
             elif seg == "floatmult":
                 kk = k + rng.choice([0, 1, 1, 2, 3])
                 t2 = int(kk * wf * NS)  # what Instant.from_seconds(k * w) gives a user
+            elif seg == "truncmult":
+                # multiples of the *truncated* period int(w*1e9): where an implementation that converts the
+                # window with Duration.from_seconds would put its boundaries (drifts 1 ns per window for 1.001 s)
+                pt = max(1, int(wf * NS))
+                t2 = ((t // pt) + rng.choice([0, 1, 1, 2])) * pt + rng.choice([-1, -1, 0, 0, 1])
             elif seg == "dense":
                 t2 = t + rng.choice([0, 0, 1, 1, 2, 3, 10])
             elif seg == "burst":
@@ -245,11 +250,49 @@ def _zero_shape(t: int, P: int, anchor: int) -> str:
     return pos
 
 
+def _clone(pol):
+    """Independent copy of a policy: shallow copy plus fresh lists.
+
+    Policies hold floats, ints, Instants and lists of Instants / RateSnapshots that are
+    only appended to or popped, never mutated in place, so this is as independent as a
+    deep copy (checked once per case against copy.deepcopy in run_policy) and 20x cheaper.
+    """
+    c = copy.copy(pol)
+    for k, v in vars(c).items():
+        if isinstance(v, list):
+            setattr(c, k, list(v))
+        elif isinstance(v, (dict, set)):
+            setattr(c, k, copy.deepcopy(v))
+    return c
+
+
+def _sig(pol) -> tuple:
+    """Cheap state signature, to verify that probing on clones leaves the real policy alone."""
+    out = []
+    for k, v in sorted(vars(pol).items()):
+        if isinstance(v, list):
+            out.append((k, len(v), repr(v[0]) if v else None, repr(v[-1]) if v else None))
+        else:
+            out.append((k, getattr(v, "nanoseconds", v)))
+    return tuple(out)
+
+
 def probe_truthfulness(res: Result, comp: str, kind: str, pol, t_ns: int, P: int, anchor: int):
     """All on deep copies.  Returns nothing; adds violations to res."""
     from happysimulator.core.temporal import Instant
 
-    c = copy.deepcopy(pol)
+    before = _sig(pol)
+    try:
+        _probe(res, comp, kind, pol, t_ns, P, anchor)
+    finally:
+        if _sig(pol) != before:
+            raise AssertionError("harness: probing on clones disturbed the real policy")
+
+
+def _probe(res: Result, comp: str, kind: str, pol, t_ns: int, P: int, anchor: int):
+    from happysimulator.core.temporal import Instant
+
+    c = _clone(pol)
     now = Instant(t_ns)
     w = c.time_until_available(now).nanoseconds
     res.count("tua_probes")
@@ -270,7 +313,7 @@ def probe_truthfulness(res: Result, comp: str, kind: str, pol, t_ns: int, P: int
         return
     res.count("tua_nonzero")
     for dt in sorted({0, w // 2, w - 1}):
-        c2 = copy.deepcopy(c)
+        c2 = _clone(c)
         res.count("early_acquire_probes")
         if c2.try_acquire(Instant(t_ns + dt)):
             res.add(
@@ -330,9 +373,8 @@ def check_bounds(res: Result, comp: str, spec: dict, admitted: list[int]):
         best_i, best_f = 0, Fraction(0) - rate * admitted[0] / NS
         for j in range(n):
             fj = Fraction(j) - rate * admitted[j] / NS
-            fi = Fraction(j) - rate * admitted[j] / NS
-            if fi < best_f:
-                best_f, best_i = fi, j
+            if fj < best_f:
+                best_f, best_i = fj, j
             if fj - best_f + 1 > cap + tol:
                 i = best_i
                 shape = "same-instant-burst" if admitted[i] == admitted[j] else "interval"
@@ -399,7 +441,8 @@ def run_policy(case: dict) -> Result:
     pol = make_policy(spec)
     comp = type(pol).__name__
     P = period_ns(spec)
-    anchor = case.get("anchor", 0)
+    # fixed windows are aligned to the epoch whatever the first arrival was
+    anchor = 0 if kind == "fixed" else case.get("anchor", 0)
     admitted: list[int] = []
     admitted_op: list[int] = []
     denials = 0
@@ -458,6 +501,14 @@ def run_policy(case: dict) -> Result:
         if kind == "adaptive":
             rate_after.append(pol.current_rate)
     res.count("denials", denials)
+    if case["ops"]:
+        # clone == deep copy, checked on the final state of every case
+        t_end = case["ops"][-1][1]
+        a, b = _clone(pol), copy.deepcopy(pol)
+        ra = (a.time_until_available(Instant(t_end)).nanoseconds, a.try_acquire(Instant(t_end)), a.try_acquire(Instant(t_end + P)))
+        rb = (b.time_until_available(Instant(t_end)).nanoseconds, b.try_acquire(Instant(t_end)), b.try_acquire(Instant(t_end + P)))
+        if ra != rb or _sig(a) != _sig(b):
+            raise AssertionError(f"harness: _clone and deepcopy disagree: {ra} vs {rb}")
     if kind != "adaptive":
         check_bounds(res, comp, spec, admitted)
     else:
@@ -495,7 +546,7 @@ def _adaptive_bound(res, comp, spec, ops, rate_after, admitted, admitted_op):
                     rmax = rate_after[upto]
                 upto += 1
             cnt = j - i + 1
-            bound = rmax * W + rmax * (admitted[j] - ti) / NS + 1e-6
+            bound = max(1.0, rmax * W) + rmax * (admitted[j] - ti) / NS + 1e-6
             if cnt > bound:
                 res.add(
                     "over-admission",
@@ -509,9 +560,34 @@ def _adaptive_bound(res, comp, spec, ops, rate_after, admitted, admitted_op):
     return
 
 
+_SHRUNK: dict[tuple, int] = {}  # per worker process: shrink only the first two cases of each mechanism key
+
+
+def _worth_shrinking(res: Result) -> bool:
+    if not res.violations:
+        return False
+    k = res.violations[0].key()
+    _SHRUNK[k] = _SHRUNK.get(k, 0) + 1
+    return _SHRUNK[k] <= 2
+
+
+def _shrink_list(items: list, fails) -> list:
+    """Shortest failing prefix by bisection, then a bounded ddmin."""
+    lo, hi = 1, len(items)
+    while lo < hi:
+        mid = (lo + hi) // 2
+        if fails(items[:mid]):
+            hi = mid
+        else:
+            lo = mid + 1
+    cur = items[:hi] if fails(items[:hi]) else items
+    return ddmin(cur, fails, max_tests=60)
+
+
 def shrink_policy(case: dict, still_fails) -> dict:
-    ops = ddmin(case["ops"], lambda o: still_fails({**case, "ops": o}), max_tests=150)
-    return {**case, "ops": ops}
+    if not _worth_shrinking(run_policy(case)):
+        return case
+    return {**case, "ops": _shrink_list(case["ops"], lambda o: still_fails({**case, "ops": o}))}
 
 
 # --------------------------------------------------------------------------
@@ -689,7 +765,7 @@ def run_sim(case: dict) -> Result:
     else:
         feeder.plan = [(t, lim, rid) for rid, t in enumerate(arrivals)]
         sim.schedule(Event(time=Instant(0), event_type="kick", target=feeder))
-    with EngineProbe(log_deliveries=False, instant_cap=5000, total_cap=300_000) as p:
+    with EngineProbe(log_deliveries=False, instant_cap=3000, total_cap=300_000) as p:
         status = p.run(sim)
     res.count("events_monitored", p.n_deliveries)
     res.count("requests_tracked", len(arrivals))
@@ -697,12 +773,17 @@ def run_sim(case: dict) -> Result:
     if status == "spin":
         s = p.spin
         cyc = sorted({f"{a}@{b}" for a, b in s.recent})
+        shape = tag
+        if which == "rle" and case["policy"]["kind"] == "fixed":
+            shape = tag + ":" + _zero_shape(s.time_ns, period_ns(case["policy"]), 0)
+        elif which == "inductor" and lim.estimated_rate > 1e9:
+            shape = "smoothed-interval-below-1ns"
         res.add(
             "frozen-clock",
             comp,
-            tag,
+            shape,
             f"{s.count} deliveries at t={s.time_ns}ns; event types at that instant: {cyc}",
-            {"time_ns": s.time_ns, "cycle": cyc, "pos": _pos(s.time_ns, period_ns(case["policy"])) if which == "rle" else None},
+            {"time_ns": s.time_ns, "cycle": cyc},
         )
         return res
     if status == "budget":
@@ -796,10 +877,13 @@ def run_sim(case: dict) -> Result:
         if s.forwarded != len(got) or s.received != len(arrivals):
             res.add("counter-mismatch", comp, tag, f"stats {s} vs downstream {len(got)} arrivals {len(arrivals)}")
         if lim.queue_depth > 0:
+            stag = tag
+            if which == "rle" and case["policy"]["kind"] == "adaptive" and lim.policy.current_rate * case["policy"]["params"]["window"] < 1.0:
+                stag = "policy=adaptive:rate-times-window-below-one-token"
             res.add(
                 "drain-stalled",
                 comp,
-                tag,
+                stag,
                 f"{lim.queue_depth} requests still queued {(end_ns - last) / NS:.3f}s after the last arrival (horizon {(qc + 3)} admission periods + 1s)",
             )
     for g in down.got:
@@ -889,7 +973,7 @@ def run_dist(case: dict) -> Result:
     else:
         feeder.plan = [(t, lims[i], rid) for rid, (t, i) in enumerate(arrivals)]
         sim.schedule(Event(time=Instant(0), event_type="kick", target=feeder))
-    with EngineProbe(log_deliveries=False, instant_cap=5000, total_cap=300_000) as p:
+    with EngineProbe(log_deliveries=False, instant_cap=3000, total_cap=300_000) as p:
         status = p.run(sim)
     res.count("events_monitored", p.n_deliveries)
     res.count("requests_tracked", len(arrivals))
@@ -944,26 +1028,50 @@ def run_dist(case: dict) -> Result:
 
 
 def shrink_sim(case: dict, still_fails) -> dict:
-    arr = ddmin(case["arrivals"], lambda a: still_fails({**case, "arrivals": a}), max_tests=120)
-    return {**case, "arrivals": arr}
+    r = run_dist(case) if case["limiter"] == "dist" else run_sim(case)
+    if not _worth_shrinking(r):
+        return case
+    return {**case, "arrivals": _shrink_list(case["arrivals"], lambda a: still_fails({**case, "arrivals": a}))}
 
 
 # --------------------------------------------------------------------------
 
+def _once(run):
+    """Report each mechanism key once per case (a probing case would repeat it at every op)."""
+
+    def f(case: dict) -> Result:
+        r = run(case)
+        seen: set = set()
+        out = []
+        for v in r.violations:
+            if v.key() not in seen:
+                seen.add(v.key())
+                out.append(v)
+        r.violations = out
+        return r
+
+    return f
+
+
+run_policy_once, run_sim_once, run_dist_once = _once(run_policy), _once(run_sim), _once(run_dist)
+
 FAMILIES = {
-    "token": Family("token", gen_policy("token"), run_policy, shrink_policy),
-    "leaky": Family("leaky", gen_policy("leaky"), run_policy, shrink_policy),
-    "sliding": Family("sliding", gen_policy("sliding"), run_policy, shrink_policy),
-    "fixed": Family("fixed", gen_policy("fixed"), run_policy, shrink_policy),
-    "adaptive": Family("adaptive", gen_policy("adaptive"), run_policy, shrink_policy),
-    "rle": Family("rle", gen_sim("rle"), run_sim, shrink_sim),
-    "inductor": Family("inductor", gen_sim("inductor"), run_sim, shrink_sim),
-    "dist": Family("dist", gen_sim("dist"), run_dist, shrink_sim),
-    "null": Family("null", gen_sim("null"), run_sim, shrink_sim),
+    "token": Family("token", gen_policy("token"), run_policy_once, shrink_policy),
+    "leaky": Family("leaky", gen_policy("leaky"), run_policy_once, shrink_policy),
+    "sliding": Family("sliding", gen_policy("sliding"), run_policy_once, shrink_policy),
+    "fixed": Family("fixed", gen_policy("fixed"), run_policy_once, shrink_policy),
+    "adaptive": Family("adaptive", gen_policy("adaptive"), run_policy_once, shrink_policy),
+    "rle": Family("rle", gen_sim("rle"), run_sim_once, shrink_sim),
+    "inductor": Family("inductor", gen_sim("inductor"), run_sim_once, shrink_sim),
+    "dist": Family("dist", gen_sim("dist"), run_dist_once, shrink_sim),
+    "null": Family("null", gen_sim("null"), run_sim_once, shrink_sim),
 }
 
+for _n, _sz in {"token": 1000, "leaky": 1000, "sliding": 1000, "fixed": 1000, "adaptive": 1000, "rle": 200, "inductor": 100, "dist": 75, "null": 40}.items():
+    FAMILIES[_n].shard_size = _sz  # fewer interpreter start-ups (2.5 s each) than the runner's default sharding
+
 BUDGET = {
-    "quick": {"token": 800, "leaky": 600, "sliding": 800, "fixed": 1000, "adaptive": 800, "rle": 500, "inductor": 200, "dist": 120, "null": 40},
+    "quick": {"token": 2500, "leaky": 2000, "sliding": 2500, "fixed": 3000, "adaptive": 2500, "rle": 800, "inductor": 300, "dist": 150, "null": 40},
     "thorough": {
         "token": 40000,
         "leaky": 30000,
